@@ -56,6 +56,11 @@ def gen(tier, rng):
             n = rng.randint(0, 5)
             ch.append([(rng.randint(1, 3), rng.choice([0, 1])) for _ in range(n)])
         chains.append((rng.choice(["K", "I"]), "dupkeys", ch))
+    # every pair of lists of length <= 3 over two keys, duplicates included (finding F18: the suffix scan stopping at the common prefix)
+    small = [list(t) for n in range(4) for t in itertools.product([1, 2], repeat=n)]
+    for a in small:
+        for b in small:
+            chains.append(("K", "dupkeys", [[(k, 0) for k in a], [(k, 0) for k in b]]))
     return chains
 
 
